@@ -89,7 +89,12 @@ def sanitize(module, snap=None, roundtrip=True, failure_path=False,
         out.append(("irsan:cfg-not-plain-CFG", type(ir.cfg).__name__))
     if snap is not None and ir.cfg is not snap.cfg:
         out.append(("irsan:cfg-object-replaced", ""))
+    others = [x for x in ir.modules if x is not m]
     for e in ir.cfg:
+        if others and any(getattr(e.source, "module", None) is x and
+                          getattr(e.target, "module", None) is x
+                          for x in others):
+            continue    # an edge inside another module of the IR
         for end, role in ((e.source, "source"), (e.target, "target")):
             if isinstance(end, gtirb.ProxyBlock):
                 if end not in m.proxies:
